@@ -106,6 +106,10 @@ func writeEvidence(cfg CheckConfig, a *agg, wall time.Duration, violations, plan
 		"workers":              cfg.Procs,
 		"sum_run_wall_s":       float64(a.wallUS) / 1e6,
 	}
+	if len(a.states) > 0 {
+		cov["states"] = len(a.states)
+		cov["transitions"] = len(a.trans)
+	}
 	if cfg.Tier == "thorough" && len(zeroProbes) > 0 {
 		cov["warning"] = "probes stuck at zero in a thorough run: " + strings.Join(zeroProbes, ", ")
 	}
